@@ -4,6 +4,17 @@
 // condition generator (govc). Compiled only with -tags verif; adds no behaviour.
 package processors
 
+import "github.com/coreruleset/crs-toolchain/v2/utils"
+
+func forall(lo, hi int, p func(int) bool) bool {
+	for k := lo; k < hi; k++ {
+		if !p(k) {
+			return false
+		}
+	}
+	return true
+}
+
 // Constructors are executed in place by the generator (strongest contract): a new
 // context has an empty stash, a new processor no lines.
 //@ contract NewContext
@@ -23,3 +34,77 @@ package processors
 //@   results ty err
 //@   ensures (err == nil) == (t == "unix" || t == "windows")
 //@   ensures implies(t == "unix", ty == CmdLineUnix) && implies(t == "windows", ty == CmdLineWindows) && implies(err != nil, ty == CmdLineUndefined)
+
+// ---- C04: what a cmdline entry hands to the optimiser -----------------------------------------
+
+func byteStr(b byte) string { return string([]byte{b}) }
+
+func implies(a, b bool) bool { return !a || b }
+
+// SpecCharImg: '.' and '-' are escaped, a blank stands for one or more white-space
+// characters, every other character is itself.
+func SpecCharImg(c byte) string {
+	if c == '.' {
+		return "\\."
+	}
+	if c == '-' {
+		return "\\-"
+	}
+	if c == ' ' {
+		return "\\s+"
+	}
+	return byteStr(c)
+}
+
+// SpecInterleave: the images of w[0..k) with the anti-evasion pattern between any two
+// adjacent characters.
+func SpecInterleave(w string, ev string, k int) string {
+	if k <= 0 || k > len(w) {
+		return ""
+	}
+	if k == 1 {
+		return SpecCharImg(w[0])
+	}
+	return SpecInterleave(w, ev, k-1) + ev + SpecCharImg(w[k-1])
+}
+
+//@ contract CmdLine.regexpChar
+//@   tags C04
+//@   results r
+//@   requires ascii: char < 128
+//@   ensures r == SpecCharImg(char)
+
+// computeSuffix: words shorter than two bytes are left alone; an unescaped final '@' / '~'
+// is stripped and selects the suffix / no-space suffix pattern; an escaped final byte loses
+// its backslash; anything else is unchanged with no suffix.
+//@ contract CmdLine.computeSuffix
+//@   tags C04 C19
+//@   results stripped suffix
+//@   ensures short: implies(len(input) < 2, stripped == input && suffix == "")
+//@   ensures at-marker: implies(len(input) >= 2 && !utils.SpecEscaped(input, len(input)-1) && input[len(input)-1] == '@', stripped == input[:len(input)-1] && suffix == c.evasionPatterns[suffixPattern])
+//@   ensures tilde-marker: implies(len(input) >= 2 && !utils.SpecEscaped(input, len(input)-1) && input[len(input)-1] == '~', stripped == input[:len(input)-1] && suffix == c.evasionPatterns[suffixExpandedCommand])
+//@   ensures plain: implies(len(input) >= 2 && !utils.SpecEscaped(input, len(input)-1) && input[len(input)-1] != '@' && input[len(input)-1] != '~', stripped == input && suffix == "")
+//@   ensures escaped-marker: implies(len(input) >= 2 && utils.SpecEscaped(input, len(input)-1) && input[len(input)-1] < 128, stripped == input[:len(input)-2]+byteStr(input[len(input)-1]) && suffix == "")
+
+// regexpStr: a leading ' passes the rest through untouched; otherwise the stripped word is
+// interleaved with the anti-evasion pattern and, when a suffix marker was given, followed by
+// the anti-evasion pattern and the selected suffix pattern.
+//@ contract CmdLine.regexpStr
+//@   tags C04 C19
+//@   results r
+//@   requires ascii: forall(0, len(input), func(i int) bool { return input[i] < 128 })
+//@   checks quote-passthrough: implies(utils.SpecHasPrefix(input, "'"), r == input[1:] && !called(computeSuffix))
+//@   checks otherwise-interleaved: implies(!utils.SpecHasPrefix(input, "'"), called(computeSuffix))
+//@   checks interleaved: implies(called(computeSuffix) && len(resultOf(computeSuffix, 1)) == 0, r == SpecInterleave(resultOf(computeSuffix, 0), c.evasionPatterns[evasionPattern], len(resultOf(computeSuffix, 0))))
+//@   checks interleaved-with-suffix: implies(called(computeSuffix) && len(resultOf(computeSuffix, 1)) > 0, r == SpecInterleave(resultOf(computeSuffix, 0), c.evasionPatterns[evasionPattern], len(resultOf(computeSuffix, 0)))+c.evasionPatterns[evasionPattern]+resultOf(computeSuffix, 1))
+//@   loop 0 invariant 0 <= rangeIndex0 && rangeIndex0 <= len(strippedInput) && bufContent(result) == SpecInterleave(strippedInput, c.evasionPatterns[evasionPattern], rangeIndex0)
+
+// NewCmdLine: the three patterns of a unix / windows block are exactly the three
+// configuration fields of that shell type (whatever toolchain.yaml defines).
+//@ contract NewCmdLine
+//@   tags C04
+//@   results a
+//@   ensures unix: implies(cmdType == CmdLineUnix, a.evasionPatterns[evasionPattern] == ctx.rootContext.configuration.Patterns.AntiEvasion.Unix && a.evasionPatterns[suffixPattern] == ctx.rootContext.configuration.Patterns.AntiEvasionSuffix.Unix && a.evasionPatterns[suffixExpandedCommand] == ctx.rootContext.configuration.Patterns.AntiEvasionNoSpaceSuffix.Unix)
+//@   ensures windows: implies(cmdType == CmdLineWindows, a.evasionPatterns[evasionPattern] == ctx.rootContext.configuration.Patterns.AntiEvasion.Windows && a.evasionPatterns[suffixPattern] == ctx.rootContext.configuration.Patterns.AntiEvasionSuffix.Windows && a.evasionPatterns[suffixExpandedCommand] == ctx.rootContext.configuration.Patterns.AntiEvasionNoSpaceSuffix.Windows)
+
+var _ = utils.SpecHasPrefix
